@@ -230,6 +230,7 @@ class C06(Property):
                                  (2, "zeronum"), (2, "cascade"),
                                  (1, "parallel"), (2, "divterm"),
                                  (2, "sharedhub"), (1, "linearize"),
+                                 (2, "fraclin"),
                                  (1, "copyonly")])
     if shape == "zeronum":
       # free response: empty numerator, feedback only (needs a delay term)
@@ -298,6 +299,17 @@ class C06(Property):
         tree = {"op": wrap, "a": tree}
         if wrap == "pow":
           tree["n"] = W.pick("hexp", [2, 3])
+    elif shape == "fraclin":
+      # fractional delays (z ** -1.5), made causal-with-integer-delays by
+      # linearize(): every such term is split over the two neighbouring
+      # integer delays, its coefficient stream is then needed twice
+      a = single()
+      a["route"] = "expr"
+      a["num"] = [[k + W.pick("frac", [0, 0.5, 0.25, 0.75]), c]
+                  for k, c in a["num"]]
+      a["num"].append([max(k for k, _ in a["num"]) + 1.5,
+                       coeff(p_stream=(1, 1))])
+      tree = {"op": "fraclin", "a": a}
     elif shape in ("linearize", "copyonly"):
       tree = {"op": shape, "a": single()}
     elif shape in ("cascade", "parallel"):
@@ -673,6 +685,8 @@ class C06(Property):
         return keep_alive[-1].copy()
       if op == "linearize":
         return rec(t["a"]).linearize()    # integer delays: the same filter
+      if op == "fraclin":
+        return rec(t["a"]).linearize()
       if op == "cascade":
         return self.lf.CascadeFilter([rec(t["a"]), rec(t["b"])])
       if op == "parallel":
@@ -738,6 +752,16 @@ class C06(Property):
       return pscale(-1, n1), d1
     if op in ("linearize", "copyonly"):
       return self.spec_polys(t["a"], n)
+    if op == "fraclin":
+      n1, d1 = self.spec_polys(t["a"], n)
+      num = {}
+      for k, v in n1.items():
+        left = int(k)
+        w = Fraction(k) - left
+        for key, val in ((left, v * (1 - w)), (left + 1, v * w)):
+          if val != 0:
+            num[key] = num.get(key, 0) + val
+      return dict((k, v) for k, v in num.items() if v != 0), d1
     if op == "div":
       n1, d1 = self.spec_polys(t["a"], n)
       n2, d2 = self.spec_polys(t["b"], n)
